@@ -74,6 +74,8 @@ def run(tier, seed, replay=None):
         jobs.append({"id": len(jobs), "src": text, "opts": opts, "want": [], "_pid": pid})
         jobs.append({"id": len(jobs), "src": universe.dirty(text, core.fnv(pid.encode())),
                      "opts": dict(opts, max_width=40), "want": [], "_pid": pid + ":dirty40"})
+    for (pid, name, text, opts) in universe.option_pair_points(tier, seed):
+        jobs.append({"id": len(jobs), "src": text, "opts": opts, "want": [], "_pid": pid})
     for i, text in enumerate(NON_ASCII):
         for d in dk:
             for w in (20, 40, 100):
